@@ -18,7 +18,12 @@
 (* weighted list) and the chosen action, so that commits, reads and        *)
 (* reopen are not drowned by the many op instances.  Domain sizes and      *)
 (* length come from the environment: NK keys, NV value types, NE elements, *)
-(* STEPS actions.                                                          *)
+(* STEPS actions.  `reopen` is followed by the harness reading everything;  *)
+(* class "coldopen" is the same step marked quiet (`q`): nothing is read,   *)
+(* the next event is the first touch of its column in the new session.     *)
+(*                                                                         *)
+(* Second part of the module (FTSpec): the exhaustive "first touch after   *)
+(* open" family.                                                           *)
 (***************************************************************************)
 EXTENDS KvStore, Json, IOUtils
 
